@@ -373,7 +373,18 @@ func (c *Case) Mint(samplePAC []byte) (*Minted, error) {
 		}
 		return strings.Join(n, "/")
 	}
-	at := func(off int64) time.Time { return now.Add(time.Duration(off) * time.Millisecond).UTC() }
+	at := func(off int64) time.Time {
+		// offsets of centuries exceed what a time.Duration can hold: walk there a century at a time
+		const century = int64(36525) * 24 * 3600 * 1000
+		t := now
+		for ; off > century; off -= century {
+			t = t.AddDate(100, 0, 0)
+		}
+		for ; off < -century; off += century {
+			t = t.AddDate(-100, 0, 0)
+		}
+		return t.Add(time.Duration(off) * time.Millisecond).UTC()
+	}
 	sess := mint.Key{EType: c.TktEType, Value: c.K("session", c.TktEType)}
 	t := &mint.TicketSpec{
 		Realm: c.TktRealm, SName: c.TktSName, SNameType: 2,
@@ -482,6 +493,8 @@ func (c *Case) ApplySettings(skewSec int, requireAddr bool, clientAddr, ktPrinc 
 const tkM = 3000 // margin (ms) for ticket times, which have one-second resolution
 const ctM = 1500 // margin (ms) for the authenticator time
 
+const farCentury = int64(36525) * 24 * 3600 * 1000 // milliseconds
+
 // Defects maps a defect name to its transformer.
 var Defects = map[string]func(c *Case){
 	"tkt-key-unrelated":   func(c *Case) { c.TktKey = "unrelated" },
@@ -524,6 +537,13 @@ var Defects = map[string]func(c *Case){
 	"ctime-future-outside": func(c *Case) {
 		c.CTimeOff = c.Skew().Milliseconds() + ctM
 	},
+	// centuries away from the service's clock (beyond the range of a 64-bit nanosecond duration)
+	"end-far-future":   func(c *Case) { c.EndOff = 70 * farCentury },
+	"end-far-past":     func(c *Case) { c.EndOff = -4 * farCentury },
+	"start-far-future": func(c *Case) { v := 4 * farCentury; c.StartOff = &v },
+	"start-far-past":   func(c *Case) { v := -4 * farCentury; c.StartOff = &v; c.AuthOff = v },
+	"ctime-far-future": func(c *Case) { c.CTimeOff = 4 * farCentury },
+	"ctime-far-past":   func(c *Case) { c.CTimeOff = -4 * farCentury },
 	"tkt-flip-first":   func(c *Case) { c.TktMut = "flip:3" },
 	"tkt-flip-middle":  func(c *Case) { c.TktMut = "flip:601" },
 	"tkt-flip-last":    func(c *Case) { c.TktMut = "flip:-1" },
